@@ -4,6 +4,7 @@ the pool of driver processes that run the REAL generator and generated code, and
 import copy
 import json
 import os
+import random
 import re
 import subprocess
 import sys
@@ -77,12 +78,13 @@ def empty_tree():
 def xml_instr(i, ind='  '):
     t = i['tag']
     attrs = ''.join(f" {k}={quoteattr(str(v))}" for k, v in i.get('attrs', {}).items())
+    cm = f"<comment>{escape(i['comment'])}</comment>" if i.get('comment') is not None else ''      # documentation only: becomes a docstring
     if t in ('field', 'dummy'):
-        if i.get('text') is not None:
-            return f"{ind}<{t}{attrs}>{escape(i['text'])}</{t}>\n"
+        if i.get('text') is not None or cm:
+            return f"{ind}<{t}{attrs}>{cm}{escape(i['text']) if i.get('text') is not None else ''}</{t}>\n"
         return f"{ind}<{t}{attrs}/>\n"
     if t in ('array', 'length'):
-        return f"{ind}<{t}{attrs}/>\n"
+        return f"{ind}<{t}{attrs}>{cm}</{t}>\n" if cm else f"{ind}<{t}{attrs}/>\n"
     if t == 'break':
         return f"{ind}<break/>\n"
     if t == 'chunked':
@@ -91,7 +93,7 @@ def xml_instr(i, ind='  '):
         s = f"{ind}<switch{attrs}>\n"
         for c in i['cases']:
             ca = ''.join(f" {k}={quoteattr(str(v))}" for k, v in c['attrs'].items())
-            s += f"{ind}  <case{ca}>\n" + ''.join(xml_instr(x, ind + '    ') for x in c['body']) + f"{ind}  </case>\n"
+            s += f"{ind}  <case{ca}>" + (f"<comment>{escape(c['comment'])}</comment>" if c.get('comment') is not None else '') + "\n" + ''.join(xml_instr(x, ind + '    ') for x in c['body']) + f"{ind}  </case>\n"
         return s + f"{ind}</switch>\n"
     raise ValueError(t)
 
@@ -100,22 +102,72 @@ def xml_file(f):
     s = "<protocol>\n"
     for e in f['enums']:
         a = ''.join(f" {k}={quoteattr(str(e[k]))}" for k in ('name', 'type') if e.get(k) is not None)
-        s += f" <enum{a}>\n"
+        s += f" <enum{a}>\n" + (f"  <comment>{escape(e['comment'])}</comment>\n" if e.get('comment') is not None else '')
         for n, v in e['values']:
             na = f" name={quoteattr(n)}" if n is not None else ''
-            s += f"  <value{na}>{escape(v) if v is not None else ''}</value>\n"
+            vc = (e.get('value_comments') or {}).get(n)
+            s += f"  <value{na}>{'<comment>' + escape(vc) + '</comment>' if vc is not None else ''}{escape(v) if v is not None else ''}</value>\n"
         s += " </enum>\n"
     for st in f['structs']:
         a = f" name={quoteattr(st['name'])}" if st.get('name') is not None else ''
-        s += f" <struct{a}>\n" + ''.join(xml_instr(i) for i in st['body']) + " </struct>\n"
+        s += f" <struct{a}>\n" + (f"  <comment>{escape(st['comment'])}</comment>\n" if st.get('comment') is not None else '') + ''.join(xml_instr(i) for i in st['body']) + " </struct>\n"
     for p in f['packets']:
         a = ''.join(f" {k}={quoteattr(str(p[k]))}" for k in ('family', 'action') if p.get(k) is not None)
-        s += f" <packet{a}>\n" + ''.join(xml_instr(i) for i in p['body']) + " </packet>\n"
+        s += f" <packet{a}>\n" + (f"  <comment>{escape(p['comment'])}</comment>\n" if p.get('comment') is not None else '') + ''.join(xml_instr(i) for i in p['body']) + " </packet>\n"
     return s + "</protocol>\n"
 
 
 def tree_xml(tree):
     return {p: xml_file(f) for p, f in tree.items()}
+
+
+def xml_to_tree(files):
+    """inverse of tree_xml (for replays, which record the XML text)"""
+    import xml.etree.ElementTree as ET
+
+    def cmt(e, d):
+        c = e.find('comment')
+        if c is not None:
+            d['comment'] = c.text or ''
+        return d
+
+    def text_of(e):
+        tx = (e.text or '') + ''.join(ch.tail or '' for ch in e)
+        return tx if (tx != '' or (e.text is not None and len(e) == 0)) else None
+
+    def body_of(e):
+        return [instr(x) for x in e if x.tag != 'comment']
+
+    def instr(e):
+        t = e.tag
+        if t in ('field', 'dummy'):
+            return cmt(e, {'tag': t, 'attrs': dict(e.attrib), 'text': text_of(e)})
+        if t in ('array', 'length'):
+            return cmt(e, {'tag': t, 'attrs': dict(e.attrib)})
+        if t == 'break':
+            return dict(BR)
+        if t == 'chunked':
+            return {'tag': 'chunked', 'body': body_of(e)}
+        if t == 'switch':
+            return {'tag': 'switch', 'attrs': dict(e.attrib), 'cases': [cmt(c, {'attrs': dict(c.attrib), 'body': body_of(c)}) for c in e]}
+        raise ValueError(t)
+    tree = {}
+    for path, text in files.items():
+        root = ET.fromstring(text)
+        f = {'enums': [], 'structs': [], 'packets': []}
+        for e in root:
+            if e.tag == 'enum':
+                d = cmt(e, {'name': e.get('name'), 'type': e.get('type'), 'values': [(v.get('name'), text_of(v)) for v in e if v.tag == 'value']})
+                vcs = {v.get('name'): v.find('comment').text or '' for v in e if v.tag == 'value' and v.find('comment') is not None}
+                if vcs:
+                    d['value_comments'] = vcs
+                f['enums'].append(d)
+            elif e.tag == 'struct':
+                f['structs'].append(cmt(e, {'name': e.get('name'), 'body': body_of(e)}))
+            elif e.tag == 'packet':
+                f['packets'].append(cmt(e, {'family': e.get('family'), 'action': e.get('action'), 'body': body_of(e)}))
+        tree[path] = f
+    return tree
 
 
 def cs(s):
@@ -434,7 +486,37 @@ class SpecGen:
             used.add((where, fa, ac))
             body, _ = self.body(top=True, depth=0, cls='P')
             t[where]['packets'].append({'family': fa, 'action': ac, 'body': body})
+        self.decorate(t, random.Random(rng.random()))
         return t
+
+    COMMENTS = ['The id.', 'a "quoted" name', "it's here", 'back\\slash', 'ends with a quote "', 'ends with a backslash \\', 'three """ quotes', '<b>markup</b> & more',
+                'two\n  lines', '\\x41 \\N{DASH} \\u00e9', '100% {braces}', '', '"""']
+
+    def decorate(self, t, rng):
+        """documentation comments (they become docstrings) on some declarations, values, instructions and cases"""
+        def walk(body):
+            for i in body:
+                if i['tag'] in ('field', 'array', 'length', 'dummy') and rng.random() < 0.12:
+                    i['comment'] = rng.choice(self.COMMENTS)
+                if i['tag'] == 'chunked':
+                    walk(i['body'])
+                if i['tag'] == 'switch':
+                    for c in i['cases']:
+                        if rng.random() < 0.12:
+                            c['comment'] = rng.choice(self.COMMENTS)
+                        walk(c['body'])
+        for f in t.values():
+            for e in f['enums']:
+                if rng.random() < 0.2:
+                    e['comment'] = rng.choice(self.COMMENTS)
+                vc = {n: rng.choice(self.COMMENTS) for n, _ in e['values'] if n is not None and rng.random() < 0.15}
+                if vc:
+                    e['value_comments'] = vc
+            for d in f['structs'] + f['packets']:
+                if rng.random() < 0.25:
+                    d['comment'] = rng.choice(self.COMMENTS)
+                walk(d['body'])
+                self.feat('comment', 'decl' if 'comment' in d else 'none')
 
     # -- one class body
     def body(self, top, depth, cls, chunked=False, in_case=False):
@@ -808,11 +890,11 @@ class GenRunner:
 # ------------------------------------------------------------------------------------------------ E1 for trees
 def run_tree_cases(name, items, timeout=900):
     """items: list of (tree, accepted: bool, [gcase coq terms]).  One Eval per tree; returns list of failing-index lists."""
-    os.makedirs(os.path.join(COQ, 'Cases'), exist_ok=True)
+    os.makedirs(CASES, exist_ok=True)
     PER = 12
     files = []
     for off in range(0, len(items), PER):
-        fn = os.path.join(COQ, 'Cases', f"{name}_{off // PER}.v")
+        fn = os.path.join(CASES, f"{name}_{off // PER}.v")
         with open(fn, 'w') as f:
             f.write("From EO Require Import Prelude.Py Prelude.Corr Model.Writer Model.Reader Model.Spec Model.Elab Model.Ser Model.Deser Model.GenHarness.\n"
                     "Open Scope string_scope.\nOpen Scope list_scope.\nOpen Scope Z_scope.\n")
@@ -855,7 +937,7 @@ def run_tree_cases(name, items, timeout=900):
 
 def show_case(name, tree, case_term):
     """model's own result for one case (for diagnosis / replay files)"""
-    fn = os.path.join(COQ, 'Cases', f"{name}_show.v")
+    fn = os.path.join(CASES, f"{name}_show.v")
     with open(fn, 'w') as f:
         f.write("From EO Require Import Prelude.Py Prelude.Corr Model.Writer Model.Reader Model.Spec Model.Elab Model.Ser Model.Deser Model.GenHarness.\n"
                 "Open Scope string_scope.\nOpen Scope list_scope.\nOpen Scope Z_scope.\n")
